@@ -135,11 +135,21 @@ def write_registry():
     path = os.path.join(LEAN_DIR, "SpecVerif", "Generated", "Registry.lean")
     os.makedirs(os.path.dirname(path), exist_ok=True)
     old = open(path).read() if os.path.exists(path) else None
+    changed = False
     if old != txt:
         with open(path, "w") as f:
             f.write(txt)
-        return True
-    return False
+        changed = True
+    # formula functions translated from their source (harness/srcgen.py): Generated/CriteriaSrc.lean
+    import srcgen
+    txt2 = srcgen.generate_criteria()
+    path2 = os.path.join(LEAN_DIR, "SpecVerif", "Generated", "CriteriaSrc.lean")
+    old2 = open(path2).read() if os.path.exists(path2) else None
+    if old2 != txt2:
+        with open(path2, "w") as f:
+            f.write(txt2)
+        changed = True
+    return changed
 
 
 def build_and_audit(log):
